@@ -155,6 +155,7 @@ class Zooming(Algorithm):
                 self.partition.make_children(parent=parent, newlayer=False)
 
             children_list = parent.get_children()
+            arm_kept = False
             for child in children_list:
                 child_domain = child.get_domain()
                 point = self.best_arm.get_point()
@@ -172,7 +173,11 @@ class Zooming(Algorithm):
                         child_updated = True
                         break
 
-                if not child_updated:
+                if not child_updated and arm_kept:
+                    # the arm lies on a face shared with a child that already keeps it
+                    self.make_active(child)
+                elif not child_updated:
+                    arm_kept = True
                     self.active_points[
                         self.best_arm
                     ] = child  # else, update the active arm to refer to the child node
